@@ -71,7 +71,7 @@ def _setarch_prefix() -> list[str]:
     return []
 
 
-def reexec_with_fixed_hashseed(no_aslr: bool = False, optimize: bool | None = None) -> None:
+def reexec_with_fixed_hashseed(no_aslr: bool = False, optimize: int | None = None) -> None:
     """Re-execute the launcher with PYTHONHASHSEED=0 unless a value is already pinned.
 
     ``no_aslr`` (replay processes): additionally switch address-space layout randomisation off,
@@ -86,7 +86,7 @@ def reexec_with_fixed_hashseed(no_aslr: bool = False, optimize: bool | None = No
         return
     want_aslr_off = no_aslr and os.environ.get("VERIF_ASLR_OFF") is None
     # ``optimize``: the replay file says under which interpreter mode the run was made (-O slice)
-    flip_opt = optimize is not None and bool(sys.flags.optimize) != bool(optimize)
+    flip_opt = optimize is not None and int(sys.flags.optimize) != int(optimize)
     if os.environ.get("PYTHONHASHSEED") != "0" or want_aslr_off or flip_opt:
         env = dict(os.environ)
         env["PYTHONHASHSEED"] = "0"
@@ -94,9 +94,9 @@ def reexec_with_fixed_hashseed(no_aslr: bool = False, optimize: bool | None = No
         if want_aslr_off:
             pre = _setarch_prefix()
             env["VERIF_ASLR_OFF"] = "1" if pre else "unavailable"
-        want_opt = bool(optimize) if optimize is not None else bool(sys.flags.optimize)
+        want_opt = int(optimize) if optimize is not None else int(sys.flags.optimize)
         env.pop("PYTHONOPTIMIZE", None)
-        argv = pre + [PYTHON] + (["-O"] if want_opt else []) + sys.argv
+        argv = pre + [PYTHON] + (["-O"] * min(2, want_opt)) + sys.argv
         os.execve(argv[0], argv, env)
 
 
